@@ -341,12 +341,14 @@ static std::string dump(const upa::url& u) {
 
 // returns the " sp=… so=…" part plus (C++ only) lock-step predicates which are appended after "@@"
 static std::string sp_dump(const upa::url& u, std::string& preds) {
+    if (!u.is_valid()) return " sp=?";
     if (!access::has_params(u)) return " sp=~";
     const auto& p = access::params(u);
     std::string s = " sp=" + pairs_str(p) + " so=" + (access::is_sorted(p) ? "1" : "0");
     if (u.is_valid()) {
         // C06: the params object lists exactly the pairs of the URL's current query; owner is this URL
-        upa::url_search_params q(u.get_part_view(upa::url::QUERY));
+        // (the URL's list is the parse of the query as it is: no '?' is dropped here)
+        const auto q = upa::url_search_params::do_parse(false, u.get_part_view(upa::url::QUERY));
         bool same = q.size() == p.size();
         if (same) {
             auto a = q.begin(); auto b = p.begin();
@@ -730,11 +732,72 @@ static std::string exec(const std::vector<std::string>& t, std::string& preds) {
             return dump(u);
         } catch (const upa::url_error&) { return "I"; }
     }
+    if (op == "rt" && t.size() == 4) {
+        // C17: path -> URL -> path -> URL -> path, with the property's predicates evaluated here
+        const auto units = parse_units(t[3]);
+        const auto fmt = fmt_of(t[1]);
+        const bool windows = t[1] == "windows";
+        std::string orig;   // the path as UTF-8 (only meaningful when well-formed)
+        bool wf = true;
+        if (t[2] == "8") { for (auto u : units) orig.push_back(static_cast<char>(u)); std::string f = orig; upa::url_utf::check_fix_utf8(f); wf = f == orig; }
+        else if (t[2] == "16") { std::u16string w; for (auto u : units) w.push_back(static_cast<char16_t>(u)); orig = upa::url_utf::to_utf8_string(w.data(), w.data() + w.size()); for (std::size_t i = 0; i < w.size(); ++i) { if (w[i] >= 0xD800 && w[i] <= 0xDFFF) { if (w[i] <= 0xDBFF && i + 1 < w.size() && w[i+1] >= 0xDC00 && w[i+1] <= 0xDFFF) ++i; else wf = false; } } }
+        else { std::u32string w; for (auto u : units) { w.push_back(static_cast<char32_t>(u)); if ((u >= 0xD800 && u <= 0xDFFF) || u > 0x10FFFF) wf = false; } orig = upa::url_utf::to_utf8_string(w.data(), w.data() + w.size()); }
+        auto shape_ok = [&](const std::string& p) {
+            if (p.find('\0') != std::string::npos) return false;
+            if (!windows) return !p.empty() && p[0] == '/';
+            if (p.find('/') != std::string::npos) return false;
+            if (p.size() >= 3 && ((p[0] | 0x20) >= 'a' && (p[0] | 0x20) <= 'z') && p[1] == ':' && p[2] == '\\') return true;   // drive-absolute
+            if (p.size() >= 5 && p[0] == '\\' && p[1] == '\\' && p[2] != '\\') {
+                if ((p[2] == '.' || p[2] == '?') && p[3] == '\\') return false;   // Win32 namespaces
+                return true;   // UNC
+            }
+            return false;
+        };
+        std::string out;
+        try {
+            const upa::url u1 = with_arg(t[2], units, [&](auto&& a) { return upa::url_from_file_path(a, fmt); });
+            out = "u1=" + hx(u1.href());
+            // injection safety
+            bool inj = u1.is_null(upa::url::QUERY) && u1.is_null(upa::url::FRAGMENT) && u1.is_file_scheme() && u1.username().empty() && u1.port().empty();
+            preds += inj ? " inj=1" : " inj=0";
+            std::string p1;
+            try { p1 = upa::path_from_file_url(u1, fmt); } catch (const upa::url_error&) { return out + " p1=F"; }
+            out += " p1=" + hx(p1);
+            preds += shape_ok(p1) ? " shape=1" : " shape=0";
+            if (!windows && wf) {
+                // POSIX paths without '.' segments come back unchanged
+                bool dotseg = false;
+                std::size_t i = 0;
+                while (i <= orig.size()) { std::size_t j = orig.find('/', i); if (j == std::string::npos) j = orig.size(); if (orig.substr(i, j - i) == ".") dotseg = true; i = j + 1; }
+                if (!dotseg) preds += p1 == orig ? " rt=1" : " rt=0";
+            }
+            upa::url u2;
+            try { u2 = upa::url_from_file_path(p1, fmt); } catch (const upa::url_error&) { preds += " fix=0"; return out + " u2=F"; }
+            out += " u2=" + hx(u2.href());
+            std::string p2;
+            try { p2 = upa::path_from_file_url(u2, fmt); } catch (const upa::url_error&) { preds += " fix=0"; return out + " p2=F"; }
+            out += " p2=" + hx(p2);
+            preds += p2 == p1 ? " fix=1" : " fix=0";
+            return out;
+        } catch (const upa::url_error&) { return "F"; }
+    }
     if (op == "topath" && t.size() == 3) {
         const upa::url& u = g_url[std::atoi(t[2].c_str())];
         if (!u.is_valid()) return "0";
         try {
             const std::string p = upa::path_from_file_url(u, fmt_of(t[1]));
+            {
+                const bool windows = t[1] == "windows";
+                bool ok = p.find('\0') == std::string::npos;
+                if (!windows) ok = ok && !p.empty() && p[0] == '/';
+                else {
+                    ok = ok && p.find('/') == std::string::npos;
+                    const bool drive = p.size() >= 3 && ((p[0] | 0x20) >= 'a' && (p[0] | 0x20) <= 'z') && p[1] == ':' && p[2] == '\\';
+                    const bool unc = p.size() >= 5 && p[0] == '\\' && p[1] == '\\' && p[2] != '\\' && !((p[2] == '.' || p[2] == '?') && p[3] == '\\');
+                    ok = ok && (drive || unc);
+                }
+                preds += ok ? " shape=1" : " shape=0";
+            }
             return "1:" + hx(p);
         } catch (const upa::url_error&) { return "0"; }
     }
